@@ -527,7 +527,16 @@ def _append_row(tree: ast.Module) -> None:
     raise Skip("_STATISTICS")
 
 
+GENERIC_FILES = ['permuta/patterns/perm.py', 'permuta/permutils/statistics.py', 'permuta/misc/math.py']
+
+
 def variants():
+    from ..selftest import generic_silent
+
+    return _variants() + generic_silent(GENERIC_FILES)
+
+
+def _variants():
     from ..selftest import V, custom, insert_stmt, reformat_only, rename_local, replace_expr, replace_stmt
 
     PE, ST = "permuta/patterns/perm.py", "permuta/permutils/statistics.py"
